@@ -173,6 +173,9 @@ def c04():
                       "same, window shorter than required (pre-genesis padding never underflows)",
                       "chain Mainnet; %d real headers" % win,
                       env={"VH_CT": 3, "VH_WIN": win}, tag="_ct3_w%d" % win, est=400, cap_s=700 if "q" in tiers else 3600, mem_est_gb=12))
+    for win, tiers in [(1, "qt"), (2, "qt"), (3, "qt"), (30, "t"), (61, "t")]:
+        obs.append(ob("c04::pre_genesis_padding", tiers, 64, "difficulty_data_to_vector: a short window is completed with simulated pre-genesis headers carrying the most recent header's difficulty, walking back from the oldest header by the most recent interval (saturating); result oldest-first; real headers kept",
+                      "%d real headers with symbolic timestamps (strictly decreasing) and difficulties" % win, env={"VH_WIN": win}, tag="_w%d" % win, est=300, mem_est_gb=6, allow_unsat=["newest and oldest difficulty differ"] if win == 1 else []))
     for ct in (3, 0, 2, 1):
         t = "qt" if ct in (3, 0) else "t"
         obs.append(ob("c04::wtema_total_floor", t, 4, "next_wtema_difficulty total, >= min_wtema, scaling 0",
@@ -352,9 +355,9 @@ def c13():
     obs = [
     ] + [
         ob("c13::block_lock_heights", "qt", 6, "Block::validate_read never accepts a block holding a height-locked kernel above the block height; the lock-height error is exact; boundaries at / one above covered",
-           "2 kernels, shape %s (bit i set = kernel i height-locked with any u64 lock height, else plain), any block height" % sh,
+           "2 kernels, shape %s (1-3: bit i set = kernel i height-locked with any u64 lock height, else plain; 4 / 5: kernel 0 / 1 is an NRD kernel, the other height-locked), any block height" % sh,
            env={"VH_SHAPE": sh}, tag="_shape%s" % sh, est=200, loops={"memcmp": 70, "zeroize": 36})
-        for sh in ("3", "1", "2")
+        for sh in ("3", "1", "2", "4", "5")
     ] + [
         ob("c13::nrd_relative_height_range", "qt", 4, "NRDRelativeHeight (constructor and decoder) accepts exactly 1..=WEEK_HEIGHT", "every u64 / u16", est=20),
         ob("c13::body_lock_height_is_max", "qt", 6, "TransactionBody::lock_height = max absolute lock height of its kernels", "2 kernels of symbolic variant", est=60),
@@ -393,6 +396,8 @@ def c14():
 def c19():
     obs = [
         ob("c19::frame_header_limits", "qt", 6, "MsgHeaderWrapper::read: accepted => network magic, type/length are the wire fields, length <= 4x the per-type limit (default limit for unknown types); refused only for wrong magic or over-limit length; no allocation",
+           "all 2^88 frame headers x 4 chain types", est=60),
+        ob("c19::frame_header_writer_matches_reader", "qt", 6, "every frame header the reader accepts is reproduced byte for byte by MsgHeader::write, and MsgHeader::new stamps the same magic",
            "all 2^88 frame headers x 4 chain types", est=60),
         ob("c19::read_message_wrong_type_refused", "t", 14, "read_message::<Ping> over an 11-byte stream: wrong magic refused, other type => error, never a panic or body allocation beyond the bound",
            "all 11-byte streams, Mainnet", est=120),
@@ -482,9 +487,9 @@ def c08():
     for k, lim, tiers in [(0, 15, "qt"), (1, 15, "qt"), (2, 15, "qt"), (2, 31, "t")]:
         obs.append(ob("c08::leaf_set_removed_pre_cutoff", tiers, lim + 3, "LeafSet::removed_pre_cutoff = leaf positions up to the cutoff that are neither unspent at the cutoff (set restricted to the cutoff plus the positions removed since) nor already pruned: exactly what a compaction at that cutoff may remove",
                       "any leaf set / removed set over positions < %d, any cutoff, prune list: K = %d " % (lim, k) + PL % lim, env={"VH_LIM": lim, "VH_K": k}, tag="_k%d_l%d" % (k, lim), est=300, loops=BL, mem_est_gb=8))
-    for k, lim, tiers in [(0, 15, "qt"), (1, 15, "qt"), (2, 15, "qt"), (1, 31, "t"), (2, 31, "t")]:
+    for k, lim, tiers in [(0, 15, "qt"), (1, 15, "t"), (2, 15, "t")]:
         obs.append(ob("c08::compaction_plan_matches_definition", tiers, lim + 3, "PMMRBackend::pos_to_rm (planning step of check_compact, on a backend with detached files): leaves removed = spent unpruned leaves up to the cutoff; positions to remove = positions newly interior to a pruned subtree (roots of pruned subtrees stay, already-removed positions are not removed twice)",
-                      "any consistent leaf set / rewind set over positions < %d, any cutoff, prune list: K = %d " % (lim, k) + PL % lim, env={"VH_LIM": lim, "VH_K": k}, tag="_k%d_l%d" % (k, lim), est=400, loops=dict(BL, **{"pos_to_rm#0": 7 if lim == 31 else 6, "pos_to_rm#1": (lim + 1) // 2 + 2}), mem_est_gb=12))
+                      "any consistent leaf set / rewind set over positions < %d, any cutoff, prune list: K = %d " % (lim, k) + PL % lim, env={"VH_LIM": lim, "VH_K": k}, tag="_k%d_l%d" % (k, lim), est=400 if k == 0 else 1200, cap_s=700 if k == 0 else 3600, loops=dict(BL, **{"pos_to_rm#0": 7 if lim == 31 else 6, "pos_to_rm#1": (lim + 1) // 2 + 2}), mem_est_gb=12, allow_unsat=["a previously pruned root becomes interior and is removed now"] if k == 0 else []))
     for k, lim, tiers in [(1, 31, "t"), (2, 31, "t")]:
         obs.append(ob("c08::prune_list_new_matches_definition", tiers, 8, "PruneList::new over K ascending disjoint subtrees (siblings allowed: roll-up inside new) equals the definition", "K = %d positions < %d, symbolic" % (k, lim), env={"VH_K": k, "VH_LIM": lim}, tag="_k%d_l%d" % (k, lim), est=900, loops=dict(L, **{"PruneList3new": k + 2}), recurse={"PruneList::append": 6}, mem_est_gb=20))
     return {
